@@ -60,16 +60,13 @@ register("C11", "exploration",
 register("C16", "exploration",
          "three parts: (seq-mp) " + SEQ_RULE + "; every history runs in multiprocessing mode (USE_MULTIPROCESSING=True, simulated "
          "multiprocessing primitives) and any disagreement is re-run in threading mode: only a difference "
-         "between the modes counts; (seq-real-mp) a few short histories with the REAL multiprocessing.Lock / Condition / "
-         "Manager().list() (seam off, one process: validates that the code uses the real primitives correctly); (conc-mp-obj, conc-mp-meta) the C07 / C12 scenarios with USE_MULTIPROCESSING=True: "
+         "between the modes counts; (conc-mp-obj, conc-mp-meta) the C07 / C12 scenarios with USE_MULTIPROCESSING=True: "
          "tasks stand for forked processes (fork-view of the store object, shared simulated mp primitives, every "
          "manager-list operation a yield point, PRNG-chosen wake-ups), oracles of C07/C12/C08",
          COMMON_ASSUME + ["contention among real OS-scheduled forked processes is outside the simulator; "
                           "processes are simulated tasks with fork-views of the store"],
          30, 420,
          [SeqPart("C16", mp=True, name="seq-mp", focus=["op:store", "op:tag", "delete-ok", "meta"]),
-          SeqPart("C16", mp=True, name="seq-real-mp", real_mp=True, weight=0.25,
-                  focus=["op:store", "op:tag", "delete-ok", "meta"]),
           ConcPart("C16", "obj", mp=True, name="conc-mp-obj"),
           ConcPart("C16", "meta", mp=True, name="conc-mp-meta", weight=0.6)])
 
@@ -231,3 +228,9 @@ register("C19", "exploration",
          COMMON_ASSUME + ["when the validation data is wrong the two copies may differ in unreferenced objects (the statement allows it)"],
          30, 420,
          [SeqPart("C19", focus=["converge"], hooks=_c19_hooks)])
+
+
+def real_mp_part():
+    """Not a registered check (real manager processes are outside the simulator's control and were seen to
+    fail on their own under load): used by `selftest.py realmp` to validate the multiprocessing stub."""
+    return SeqPart("C16", mp=True, name="seq-real-mp", real_mp=True, focus=["op:store", "op:tag", "delete-ok", "meta"])
